@@ -75,3 +75,7 @@ Definition described_ok (e : cfg * (list Z * list Z * list Z * list Z * list Z *
   | Err _ => false end.
 Lemma shipped_described_ok : (20 <= length shipped_described)%nat /\ forallb described_ok shipped_described = true.
 Proof. split; [vm_compute; repeat constructor | vm_compute; reflexivity]. Qed.
+
+(* the sections of a shipped configuration in the reverse order: the same environment *)
+Lemma section_order_example : build gen_tabs (CDict (rev first_tree)) = build gen_tabs (CDict first_tree) /\ builds (CDict first_tree) = true /\ (2 <= length first_tree)%nat.
+Proof. repeat split; vm_compute; try reflexivity. repeat constructor. Qed.
